@@ -1,6 +1,8 @@
 """C12 - event filters select exactly the matching subsequence."""
 from __future__ import annotations
 
+import ast
+
 from .. import normal, pipeline, sym
 from ..model import AnalysisError, Repo
 from ..report import Run
@@ -293,8 +295,45 @@ def analyse_residue(repo: Repo, run: Run, interp) -> None:
     run.floor("R5", "facade methods analysed", n, 12)
 
 
+def generator_stages(repo: Repo, run: Run, interp) -> None:
+    """R5 (multiplicity): a generator method of the facade that loops over the stream it is given and yields the element
+    itself is a filter stage written out; it must not hand the same element on twice.  Two yields of the loop element in one
+    iteration whose path conditions can hold together (as truth values of independent atoms: `class in filter_class`,
+    `subclass in filter_subclass`) list an element that satisfies both twice - the listing is then not a subsequence."""
+    ci = repo.cls("pykdebugparser", "PyKdebugParser")
+    n = 0
+    for name, fn in ci.methods.items():
+        if not any(isinstance(x, ast.Yield) for x in ast.walk(fn)):
+            continue
+        rec = interp.run(ci.module, fn, self_cls=ci)
+        params = {param(a.arg) for a in fn.args.args}
+        for lr in rec.loops.values():
+            if lr.kind != "for" or lr.iter not in params or not lr.func.endswith("." + name):
+                continue
+            ys = [r for r in rec.returns if r.kind == "yield" and lr.id in r.loops and r.value == lr.target]
+            if not ys:
+                continue
+            n += 1
+            clash = None
+            for i, y1 in enumerate(ys):
+                for y2 in ys[i + 1:]:
+                    c1 = normal.pc_term(y1.pc)
+                    c2 = normal.pc_term(y2.pc)
+                    both = T("bool", ("and", (c1, c2)))
+                    if normal.bool_equiv(both, const(False)) is False:
+                        clash = (y1, y2)
+            run.ob("R5", MOD, name, "a stage hands each selected element on once", clash is None,
+                   "" if clash is None else
+                   f"{name} yields the element at line {clash[0].lineno} and again at line {clash[1].lineno} on paths that do not "
+                   f"exclude each other: an element satisfying both conditions is listed twice (the listing is not a subsequence)",
+                   line=fn.lineno, witness="an event whose class and subclass are both requested (overlapping filters)",
+                   nontrivial=False)
+    run.analysed["generator_stages"] = n
+
+
 def check(repo: Repo, run: Run) -> None:
     interp = sym.Interp(repo)
+    generator_stages(repo, run, interp)
     analyse_residue(repo, run, interp)
     n = 0
     for name in ("kevents", "os_log_events"):
